@@ -506,10 +506,11 @@ class ConfigValidator:
         """Assert that value is within boundaries for numeric template."""
         if param:
             param = param.split(",")
-            if param[0] != "NONE" and value < float(param[0]):
+            # the comparisons are written so that nan (which is neither smaller nor larger than anything) is rejected
+            if param[0] != "NONE" and not value >= float(param[0]):
                 raise self.validation_error(item, validation_failure_info,
                                             "{} is smaller then {}".format(value, param[0]))
-            if param[1] != "NONE" and value > float(param[1]):
+            if param[1] != "NONE" and not value <= float(param[1]):
                 raise self.validation_error(item, validation_failure_info,
                                             "{} is larger then {}".format(value, param[1]))
 
